@@ -428,7 +428,11 @@ def run_env(chk, drv, model, ncases):
     cases = [gen_env_case(rng) for _ in range(ncases)]
     # corpus: ids cannot be overridden (LLBUILD_TASK_ID=outer in the base environment is the witness of the repaired defect a51183e); duplicates; entries without '='
     cases += [dict(req=[(K_LANE, b"bogus"), (K_BUILD, b"bogus"), (b"A", b"req"), (b"A", b"req2")], inherit=True, base=[b"A=base", b"B=base", b"B=base2", b"NOEQ"], control=True, lanes=2),
-              dict(req=[], inherit=True, base=[K_TASK + b"=outer", K_CFD + b"=99"], control=True, lanes=1),
+              # nested llbuild: the outer task's ids arrive through the inherited / requested environment
+              dict(req=[], inherit=True, base=[K_TASK + b"=z", K_CFD + b"=99", b"A=1"], control=True, lanes=1),
+              dict(req=[], inherit=True, base=[K_TASK + b"=z", K_CFD + b"=99", b"A=1"], control=False, lanes=1),
+              dict(req=[(K_TASK, b"z"), (K_CFD, b"99"), (b"A", b"2")], inherit=True, base=[b"A=1"], control=True, lanes=2),
+              dict(req=[(K_TASK, b"z"), (K_CFD, b"99")], inherit=False, base=[], control=False, lanes=1),
               dict(req=[(K_TASK, b"mine")], inherit=False, base=[b"Z=1"], control=False, lanes=1),
               dict(req=[(b"A", b"1")], inherit=False, base=None, control=False, lanes=1),
               dict(req=[], inherit=True, base=None, control=True, lanes=1)]
@@ -478,7 +482,7 @@ def run_env(chk, drv, model, ncases):
         if not bad and not tid_ok:
             who = "requested" if K_TASK in dict(c["req"]) else "inherited" if K_TASK in dict(inh) else None
             bad = ("env-task-id-shadowed", "LLBUILD_TASK_ID in the child is %r%s, not the id of this task" % (cd.get(K_TASK), (", supplied by the %s environment" % who) if who else ""))
-        if not bad and c["control"] and not (cd.get(K_CFD, b"").isdigit() and int(cd[K_CFD]) > 2):
+        if not bad and c["control"] and not (cd.get(K_CFD, b"").isdigit() and int(cd[K_CFD]) > 2 and cd[K_CFD] not in [v for k, v in supplied if k == K_CFD]):
             bad = ("env-task-id-shadowed", "control channel enabled but LLBUILD_CONTROL_FD in the child is %r, not this process's descriptor" % cd.get(K_CFD))
         if not bad and not c["control"] and K_CFD in cd:
             bad = ("env-ids", "control channel disabled but LLBUILD_CONTROL_FD=%r in the child" % cd[K_CFD])
@@ -515,10 +519,15 @@ def run_env(chk, drv, model, ncases):
 
 # ------------------------------------------------------------------ entry points
 def run(chk):
+    T = {}
+    t0 = time.time()
     drv = vlib.build_drivers(["queue_driver"])["queue_driver"]
+    T["build_drivers"] = round(time.time() - t0, 1); t0 = time.time()
     ent = probe(drv)
     write_gen(ent)
+    T["probe"] = round(time.time() - t0, 1); t0 = time.time()
     model = vlib.model_bin("queue")
+    T["model_bin"] = round(time.time() - t0, 1); t0 = time.time()
 
     def search(res):
         for (k, a, raw, st) in ent:
@@ -527,6 +536,7 @@ def run(chk):
                 return dict(key="status-not-fate", what=why, replay=dict(kind="fate", fate=("exit %d" % a) if k == 0 else ("kill -%d $$" % a), raw=raw, status=st))
         return None
     chk.proof_gate(search=search)
+    T["proof_gate"] = round(time.time() - t0, 1); t0 = time.time()
 
     tmp = os.path.join(vlib.WORK, "tmp", "c16")
     shutil.rmtree(tmp, ignore_errors=True)
@@ -556,9 +566,13 @@ def run(chk):
         ok += run_queue_scenarios(chk, drv, model, scs[i:i + 50], "mix" if i else "corpus")
     chk.cov["job_mixes"] = len(scs)
     chk.cov["traces_validated_against_impl"] = ok
+    T["queue_traces"] = round(time.time() - t0, 1); t0 = time.time()
 
     run_children(chk, drv, model, tmp)
+    T["children"] = round(time.time() - t0, 1); t0 = time.time()
     run_env(chk, drv, model, chk.n(60, 1500))
+    T["environment"] = round(time.time() - t0, 1)
+    chk.cov["phase_wall_s"] = T
     shutil.rmtree(tmp, ignore_errors=True)
 
     chk.assumptions = [
